@@ -68,10 +68,13 @@ def gen_mag(rng: random.Random, eps: float, hi: float = 1e3) -> float:
     return 10 ** rng.uniform(-6, math.log10(hi))
 
 
-def gen_sigma(rng: random.Random, eps: float, hi: float = 8.0) -> float:
-    """log-scale"""
+def gen_sigma(rng: random.Random, eps: float, hi: float = 8.0, wide: float = 0.0) -> float:
+    """log-scale; with probability `wide` an extreme one (scales far below eps / far above 1/eps are still
+    valid group elements: |log s| up to 30 for float32, 40 for float64)"""
     c = rng.random()
     s = rng.choice([-1.0, 1.0])
+    if wide and rng.random() < wide:
+        return s * rng.choice([12.0, 17.0, 20.0, 30.0] + ([37.0, 40.0] if eps < 1e-10 else []))
     if c < 0.15:
         return 0.0
     if c < 0.6:
@@ -134,7 +137,7 @@ def gen_unit_quat(rng: random.Random, eps: float):
     return q, tag
 
 
-def gen_group(rng: random.Random, name: str, eps: float, thi: float = 1e3, shi: float = 8.0):
+def gen_group(rng: random.Random, name: str, eps: float, thi: float = 1e3, shi: float = 8.0, wide: float = 0.0):
     q, tag = gen_unit_quat(rng, eps)
     out, tags = [], [tag]
     if name in ("SE3", "Sim3"):
@@ -143,7 +146,7 @@ def gen_group(rng: random.Random, name: str, eps: float, thi: float = 1e3, shi: 
         tags.append(f"t{common.sig_mag(m)}")
     out += q
     if name in ("RxSO3", "Sim3"):
-        s = gen_sigma(rng, eps, shi)
+        s = gen_sigma(rng, eps, shi, wide)
         out.append(math.exp(s))
         tags.append(f"s{common.sig_mag(s)}")
     return out, "/".join(tags)
